@@ -16,10 +16,11 @@ from .model import LIB_DIRS, AnalysisError
 
 
 class Case:
-    def __init__(self, cid, relpath, old, new, rule=None, where=None, benign=False, count=1, note='', expect_error=False):
+    def __init__(self, cid, relpath, old, new, rule=None, where=None, benign=False, count=1, note='', expect_error=False, more=()):
         self.cid, self.relpath, self.old, self.new = cid, relpath, old, new
         self.rule, self.where, self.benign, self.count, self.note = rule, where, benign, count, note
         self.expect_error = expect_error
+        self.more = list(more)  # further (old, new) edits in the same file, each expected exactly once
 
 
 def cases_for(prop):
@@ -48,6 +49,10 @@ def _run_case(args):
         if src.count(case.old) != case.count:
             return (case.cid, 'inapplicable', f'anchor text occurs {src.count(case.old)}x, expected {case.count}x')
         new_src = src.replace(case.old, case.new)
+        for o, n in case.more:
+            if new_src.count(o) != 1:
+                return (case.cid, 'inapplicable', f'anchor text of a further edit occurs {new_src.count(o)}x')
+            new_src = new_src.replace(o, n)
         try:
             compile(new_src, path, 'exec')
         except SyntaxError as e:
